@@ -93,7 +93,27 @@ def decorate(rng: random.Random, h: List[List[Any]], kind: str = 'build') -> Dic
             ms.append([name, doc, kindm])
         if ms:
             mem.append([c, ms])
-    return {'kind': kind, 'h': h, 'mod': mod, 'imp': imp, 'gen': gen, 'mem': mem, 'pkg': rng.random() < 0.2}
+    hid: List[List[int]] = []
+    if rng.random() < 0.5:
+        for c, ms in mem:
+            for name, _, kindm in ms:
+                if rng.random() < 0.3:
+                    hid.append([c, mnum(name, kindm)])
+        for c, _ in h:
+            if rng.random() < 0.08:
+                hid.append([c, -1])
+    return {'kind': kind, 'h': h, 'mod': mod, 'imp': imp, 'gen': gen, 'mem': mem, 'pkg': rng.random() < 0.2, 'hid': hid}
+
+
+def hidden_set(case: Any) -> set:
+    """(class, member number) pairs that are not visible: hidden themselves or inside a hidden class"""
+    hid = set((c, n) for c, n in case.get('hid', []))
+    out = set()
+    for c, ms in case.get('mem', []):
+        for name, _, kindm in ms:
+            if (c, mnum(name, kindm)) in hid or (c, -1) in hid:
+                out.add((c, mnum(name, kindm)))
+    return out
 
 
 def random_cyclic(rng: random.Random) -> Dict[str, Any]:
@@ -107,6 +127,7 @@ def random_cyclic(rng: random.Random) -> Dict[str, Any]:
     if rng.random() < 0.7:
         case['mod'] = [0] * n
     case['mem'] = []
+    case['hid'] = []
     return case
 
 
@@ -199,6 +220,7 @@ def oracle_build(case: Any, obs: Any) -> Optional[str]:
     h = case['h']
     mem = {c: ms for c, ms in case.get('mem', [])}
     rc = reaches_cycle(h) if case['kind'] == 'cyc' else {}
+    hidden = hidden_set(case)
     for c, bs in h:
         io = impl['classes'].get(str(c))
         po = py[str(c)]
@@ -270,9 +292,12 @@ def oracle_build(case: Any, obs: Any) -> Optional[str]:
                 if nm in listed:
                     return 'class K%d: member %s is listed twice in the member tables' % (c, nm)
                 listed[nm] = chain[0]
-        want = {mstr(n % 100, n // 100): d for n, d in zip(NAMES, po['find']) if d is not None}
+        # ... unless the definition attribute lookup stops at is hidden (--privacy): then the name is not listed at all
+        want = {mstr(n % 100, n // 100): d for n, d in zip(NAMES, po['find']) if d is not None and (d, n) not in hidden}
         if listed != want:
-            return 'class K%d: attributes and their defining classes are %s, the member tables say %s' % (c, want, listed)
+            return ('class K%d: the visible attributes and the classes attribute lookup finds them in are %s '
+                    '(hidden definitions: %s), the inherited-member tables say %s'
+                    % (c, want, sorted('K%d.%s' % (d, mstr(n % 100, n // 100)) for d, n in hidden), listed))
     return None
 
 
@@ -282,7 +307,9 @@ def model_hier_input(h: List[List[Any]]) -> str:
 
 
 def model_members_input(case: Any) -> str:
-    mem = [[c, [[mnum(n, k), [] if d is None else [d]] for n, d, k in ms]] for c, ms in case.get('mem', [])]
+    hidden = hidden_set(case)
+    mem = [[c, [[mnum(n, k), [] if d is None else [d], 1 if (c, mnum(n, k)) in hidden else 0] for n, d, k in ms]]
+           for c, ms in case.get('mem', [])]
     return enc([2, [[[c, list(bs)] for c, bs in case['h']], mem, NAMES]])
 
 
@@ -360,6 +387,17 @@ class Check(PropertyCheck):
     def build_cases(self) -> List[Any]:
         out = []
         rng = random.Random(self.seed * 7919 + 5)
+        # corpus first: hidden overrides / hidden classes between a class and the base that defines the member
+        # 1 Base(f0 f1), 2 Mid(1)(f0 hidden, f2), 3 Leaf(2)(f3), 4 Mixin(f0 f1), 5 Multi(2, 4)
+        hier5 = [[1, []], [2, [1]], [3, [2]], [4, []], [5, [2, 4]]]
+        mem5 = [[1, [[0, 101, 0], [1, 102, 0]]], [2, [[0, 201, 0], [2, 203, 0]]], [3, [[3, 304, 0]]],
+                [4, [[0, 401, 0], [1, 402, 0]]]]
+        for hid in ([[2, 0]], [[2, -1]], [[1, 0], [4, 1]], [[2, 0], [4, 0]], []):
+            out.append({'kind': 'build', 'h': hier5, 'mod': [0] * 5, 'imp': [0] * 5, 'gen': [], 'mem': mem5,
+                        'pkg': False, 'hid': hid})
+        out.append({'kind': 'build', 'h': hier5, 'mod': [0, 1, 1, 0, 2], 'imp': [0, 1, 0, 0, 1], 'gen': [[5, 0]], 'mem': mem5,
+                    'pkg': True, 'hid': [[2, 0], [3, -1]]})
+        self.stats['privacy_corpus'] = len(out)
         ne = 0
         for n in range(1, self.maxn() + 1):
             for h in hierarchies(n):
@@ -486,6 +524,9 @@ class Check(PropertyCheck):
                 out.append(Violation('oracle', msg, case=c, observed={'impl': o['impl'], 'py': o['py']}))
             # distributions
             self.count('built_%s' % c['kind'])
+            if c.get('hid'):
+                self.count('built_with_hidden_members_or_classes')
+                self.count('hidden_rules', len(c['hid']))
             self.count('modules_%d' % (max(c['mod']) + 1 if c['mod'] else 0))
             for k, po in o['py']['classes'].items():
                 self.count('built_python_' + ('accepts' if po['mro'] is not None else 'rejects_or_undefined'))
